@@ -32,9 +32,10 @@ S_Big == {<<R(7, 0), R(5, 1)>>, <<R(8, 0), R(6, 0), R(5, 1), R(4, 2)>>, <<R(6, 0
 
 \* model-checking families
 S_MCQ2  == S_Hole33 \cup S_Two33
-S_MCT2  == S_Hole33 \cup S_Hole43
+S_MCT2  == S_Hole33
+S_MCT2b == S_Hole43 \cup S_Hole34
 S_MCT3  == S_Two33 \cup S_Two34
-S_MCT4  == S_Two33H1 \cup S_One4HH \cup S_Two33H2
+S_MCT4  == S_Two33H1 \cup S_One4HH
 S_SameQ == S_One3 \cup S_One4 \cup S_Hole33
 S_SameT == S_One \cup S_Hole33 \cup S_Two33H1
 S_Live  == S_One3 \cup S_Hole33
